@@ -1,18 +1,26 @@
 (* Model of the paged List RPCs (C15).  No proofs here.
 
    Key-token servers (pkg/trait/{electricpb,hailpb,publicationpb,vendingpb x2,parentpb}/model_server.go
-   + pages.go): the page token names the key of the last item of the previous page; the next page
-   starts at the first item whose key is greater (sort.Search on the sorted listing).  The base64 /
-   protobuf (un)marshalling of the token is library code: the model receives the decoded last key
-   ([TokKey k], k = PageToken.GetLastResourceName(), "" when the token carries no resource name),
-   [TokEmpty] for the empty string, or [TokMalformed] when base64 or proto decoding fails.
+   + pages.go): ONE generic pager [key_page], instantiated per RPC by a [pager_cfg] whose fields are
+   read from the source on every run (Gen/Pagers.v: default / max page size, base64 alphabet of
+   encodePageToken and of decodePageToken, search operator, whether validatePageSize is called,
+   whether the paged listing is read through the request's read mask).  The page token names the key
+   of the last item of the previous page; the next page starts at the first item whose key is
+   greater (sort.Search on the sorted listing).  The token on the wire is modelled concretely
+   (Pages/Codec.v: proto.Marshal of PageToken{last_resource_name} + padded base64); tokens the
+   SERVER minted are decoded by the model's own decoder, the FIRST token of a chain (which may be
+   arbitrary client bytes) is classified by the harness with the same two library calls the server
+   makes ([TokKey k], k = PageToken.GetLastResourceName(), "" when the token carries no resource
+   name; [TokEmpty] for ""; [TokMalformed] when base64 or proto decoding fails).
+   total_size is int32(len(items)): [wrap32].  Each request of a chain has its own page size.
 
    Waste server (wastepb/model_server.go + model.go): the token is a decimal index counting down from
    the number of records; the listing is newest first.
 
-   Go panics (index / slice bounds) are explicit outcomes.  [*_v0] are the handlers as they were
-   before the `fix:` commits (no validation of negative page sizes / waste token range). *)
-From SC Require Import Base.Prelude.
+   Go panics (index / slice bounds) are explicit outcomes.  Earlier versions of the handlers are
+   other configurations ([cfg_no_validate]: before 97d7676; [cfg_mask_before]: before the read-mask
+   fix) or [*_v0] functions (waste). *)
+From SC Require Import Base.Prelude Pages.Codec Pages.PagerCfg Gen.Pagers.
 
 Inductive outcome (T : Type) :=
 | OPage (keys : list string) (next : option T) (total : Z)
@@ -55,14 +63,76 @@ Fixpoint go_search (fuel : nat) (pred : Z -> bool) (i j : Z) : Z :=
   end.
 Definition sort_search (n : Z) (pred : Z -> bool) : Z := go_search (S (Z.to_nat n)) pred 0 n.
 
-(* the two shapes of "index of the first item after lastKey" *)
-Inductive variant :=
-| VGreater     (* electric, hail, publication, vending x2: Search(key > lastKey) *)
-| VGeSkip.     (* parent: Search(key >= lastKey), then step over an exact match *)
+(* ---- configuration of one handler ---- *)
+Record pager_cfg := {
+  pc_variant : variant;
+  pc_default : Z;
+  pc_max : Z;
+  pc_enc : b64alpha;
+  pc_dec : b64alpha;
+  pc_validates : bool;      (* validatePageSize between decodePageToken and capPageSize *)
+  pc_mask_before : bool     (* the listing is read with the request's read mask before it is paged *)
+}.
 
-Inductive server := SElectric | SHail | SParent | SPublication | SConsumables | SInventory.
-Definition variant_of (s : server) : variant :=
-  match s with SParent => VGeSkip | _ => VGreater end.
+(* a configuration no theorem applies to: used when a row is missing from the generated tables *)
+Definition broken_cfg : pager_cfg :=
+  {| pc_variant := VGreater; pc_default := 0; pc_max := 0; pc_enc := B64Other; pc_dec := B64Other;
+     pc_validates := false; pc_mask_before := true |}.
+
+Definition cfg_of_tables (pt : list pages_go) (ht : list handler_row) (s : server) : pager_cfg :=
+  match find (fun h => server_eqb (h_server h) s) ht with
+  | None => broken_cfg
+  | Some h =>
+      match find (fun p => String.eqb (pg_pkg p) (h_pkg h)) pt with
+      | None => broken_cfg
+      | Some p =>
+          {| pc_variant := match h_variant h with Some v => v | None => VGreater end;
+             pc_default := pg_default p; pc_max := pg_max p; pc_enc := pg_enc p; pc_dec := pg_dec p;
+             pc_validates := h_validates h; pc_mask_before := h_mask_before h |}
+      end
+  end.
+
+(* the configuration of each RPC as found in the tree under check *)
+Definition cfg_of (s : server) : pager_cfg := cfg_of_tables pages_go_table handler_table s.
+
+(* the handlers as modelled by hand (what the tree contained when the proofs were written) *)
+Definition std_cfg (v : variant) : pager_cfg :=
+  {| pc_variant := v; pc_default := 50; pc_max := 1000; pc_enc := B64Std; pc_dec := B64Std;
+     pc_validates := true; pc_mask_before := false |}.
+Definition variant_of (s : server) : variant := match s with SParent => VGeSkip | _ => VGreater end.
+
+Definition cfg_eqb (a b : pager_cfg) : bool :=
+  match pc_variant a, pc_variant b with VGreater, VGreater | VGeSkip, VGeSkip => true | _, _ => false end
+  && (pc_default a =? pc_default b) && (pc_max a =? pc_max b)
+  && b64alpha_eqb (pc_enc a) (pc_enc b) && b64alpha_eqb (pc_dec a) (pc_dec b)
+  && Bool.eqb (pc_validates a) (pc_validates b) && Bool.eqb (pc_mask_before a) (pc_mask_before b).
+
+(* what the theorems need of a configuration *)
+Definition cfg_ok (c : pager_cfg) : bool :=
+  (pc_default c =? 50) && (pc_max c =? 1000)
+  && b64alpha_eqb (pc_enc c) (pc_dec c) && negb (b64alpha_eqb (pc_enc c) B64Other)
+  && pc_validates c && negb (pc_mask_before c).
+
+Definition with_variant (c : pager_cfg) (v : variant) : pager_cfg :=
+  {| pc_variant := v; pc_default := pc_default c; pc_max := pc_max c; pc_enc := pc_enc c; pc_dec := pc_dec c;
+     pc_validates := pc_validates c; pc_mask_before := pc_mask_before c |}.
+(* before 97d7676: no validatePageSize *)
+Definition cfg_no_validate (c : pager_cfg) : pager_cfg :=
+  {| pc_variant := pc_variant c; pc_default := pc_default c; pc_max := pc_max c; pc_enc := pc_enc c; pc_dec := pc_dec c;
+     pc_validates := false; pc_mask_before := pc_mask_before c |}.
+(* before the read-mask fix: model.List(WithReadMask(request.ReadMask)) is what gets paged *)
+Definition cfg_mask_before (c : pager_cfg) : pager_cfg :=
+  {| pc_variant := pc_variant c; pc_default := pc_default c; pc_max := pc_max c; pc_enc := pc_enc c; pc_dec := pc_dec c;
+     pc_validates := pc_validates c; pc_mask_before := true |}.
+(* seeded change C15-r3-3: encodePageToken switched to the URL-safe alphabet *)
+Definition cfg_enc (c : pager_cfg) (a : b64alpha) : pager_cfg :=
+  {| pc_variant := pc_variant c; pc_default := pc_default c; pc_max := pc_max c; pc_enc := a; pc_dec := pc_dec c;
+     pc_validates := pc_validates c; pc_mask_before := pc_mask_before c |}.
+
+Definition cap_of (c : pager_cfg) (z : Z) : Z :=
+  if z =? 0 then pc_default c
+  else if pc_max c <? z then pc_max c
+  else z.
 
 Definition next_index (v : variant) (keys : list string) (lastKey : string) : Z :=
   let n := zlen keys in
@@ -74,55 +144,77 @@ Definition next_index (v : variant) (keys : list string) (lastKey : string) : Z 
            if (i <? n) && key_eqb (nth_key keys i) lastKey then i + 1 else i
        end.
 
-(* the body of the handler after token decoding; pageSize is the raw request field *)
-Definition key_page_core (v : variant) (keys : list string) (lastKey : string) (size : Z) : outcome string :=
-  let n := zlen keys in
-  let ps := cap_page_size size in
-  let ni := next_index v keys lastKey in
+(* the body of the handler after token decoding and size validation; [size] is the raw request
+   field; [seen] is the listing the handler pages over (its keys supply the search and the token),
+   [keys] the identities of the same items (what the caller receives).  seen = keys unless the
+   listing was read through a read mask that leaves the key field out. *)
+Definition key_page_core (c : pager_cfg) (seen keys : list string) (lastKey : string) (extra : list Z) (size : Z) : outcome string :=
+  let n := zlen seen in
+  let ps := cap_of c size in
+  let ni := next_index (pc_variant c) seen lastKey in
   let ub := ni + ps in
   if n <? ub then
     (* upperBound = len; pageToken = nil; items[nextIndex:len] *)
-    if ni <=? n then OPage (slice keys ni n) None n else OPanic
+    if ni <=? n then OPage (slice keys ni n) None (wrap32 n) else OPanic
   else
     (* items[upperBound-1].key, then items[nextIndex:upperBound] *)
     if ub - 1 <? 0 then OPanic
     else if ub <? ni then OPanic
-    else OPage (slice keys ni ub) (Some (nth_key keys (ub - 1))) n.
+    else OPage (slice keys ni ub) (Some (encode_token_x (pc_enc c) (nth_key seen (ub - 1)) extra)) (wrap32 n).
 
 Inductive token := TokEmpty | TokKey (k : string) | TokMalformed.
 
 Definition last_key (t : token) : string := match t with TokKey k => k | _ => EmptyString end.
 
-(* before the fix: only the token is validated *)
-Definition key_page_v0 (v : variant) (keys : list string) (tok : token) (size : Z) : outcome string :=
-  match tok with
-  | TokMalformed => OErr InvalidArgument
-  | _ => key_page_core v keys (last_key tok) size
+(* what a request carries: the first token of a chain as classified by the harness, or the raw
+   next_page_token of the previous answer (never "": the chain stops there) *)
+Inductive wiretok := WFirst (t : token) (extra : list Z) | WRaw (raw : string).
+
+Definition token_of (c : pager_cfg) (w : wiretok) : token :=
+  match w with
+  | WFirst t _ => t
+  | WRaw r => match decode_minted (pc_dec c) r with Some (k, _) => TokKey k | None => TokMalformed end
   end.
 
-(* current code: negative page sizes are rejected after the token has been decoded *)
-Definition key_page (v : variant) (keys : list string) (tok : token) (size : Z) : outcome string :=
-  match tok with
-  | TokMalformed => OErr InvalidArgument
-  | _ => if size <? 0 then OErr InvalidArgument else key_page_core v keys (last_key tok) size
+(* the unknown fields of the decoded PageToken (the struct is reused for the next token) *)
+Definition extra_of (c : pager_cfg) (w : wiretok) : list Z :=
+  match w with
+  | WFirst _ e => e
+  | WRaw r => match decode_minted (pc_dec c) r with Some (_, e) => e | None => [] end
   end.
 
-(* a client following next_page_token; at most [fuel] calls *)
-Fixpoint chain_with {T Tok} (page : Tok -> outcome T) (wrap : T -> Tok) (fuel : nat) (tok : Tok) : list (outcome T) :=
-  match fuel with
-  | O => []
-  | S f =>
-      let o := page tok in
+Definition blank_keys (keys : list string) : list string := map (fun _ => EmptyString) keys.
+
+(* the handler: token decoded first (InvalidArgument), then validatePageSize (InvalidArgument for a
+   negative size) when the handler calls it, then the listing and the page.  [dropkey]: the request's
+   read mask leaves the key field out. *)
+Definition key_page (c : pager_cfg) (keys : list string) (dropkey : bool) (w : wiretok) (size : Z) : outcome string :=
+  match token_of c w with
+  | TokMalformed => OErr InvalidArgument
+  | tok =>
+      if pc_validates c && (size <? 0) then OErr InvalidArgument
+      else
+        let seen := if pc_mask_before c && dropkey then blank_keys keys else keys in
+        key_page_core c seen keys (last_key tok) (extra_of c w) size
+  end.
+
+(* a client following next_page_token; one page size per request, at most [length sizes] calls *)
+Fixpoint chain_req {T Tok} (page : Tok -> Z -> outcome T) (wrap : T -> Tok) (sizes : list Z) (tok : Tok) : list (outcome T) :=
+  match sizes with
+  | [] => []
+  | sz :: rest =>
+      let o := page tok sz in
       o :: match o with
-           | OPage _ (Some k) _ => chain_with page wrap f (wrap k)
+           | OPage _ (Some k) _ => chain_req page wrap rest (wrap k)
            | _ => []
            end
   end.
 
-Definition key_chain (v : variant) (keys : list string) (size : Z) (fuel : nat) (tok : token) : list (outcome string) :=
-  chain_with (fun t => key_page v keys t size) TokKey fuel tok.
-Definition key_chain_v0 (v : variant) (keys : list string) (size : Z) (fuel : nat) (tok : token) : list (outcome string) :=
-  chain_with (fun t => key_page_v0 v keys t size) TokKey fuel tok.
+Definition key_chain (c : pager_cfg) (keys : list string) (dropkey : bool) (sizes : list Z) (w : wiretok) : list (outcome string) :=
+  chain_req (key_page c keys dropkey) WRaw sizes w.
+
+(* the same page size on every request *)
+Definition const_sizes (size : Z) (fuel : nat) : list Z := repeat size fuel.
 
 (* ---- waste: records in insertion order, identified by their id strings ---- *)
 
@@ -158,7 +250,7 @@ Definition waste_respond (ids : list string) (start count : Z) : outcome Z :=
       let next := if count =? zlen recs
                   then (if 0 <? start - count then Some (start - count) else None)
                   else None in
-      OPage recs next (zlen ids)
+      OPage recs next (wrap32 (zlen ids))
   end.
 
 (* before the fixes: Atoi errors are returned as they are (status code Unknown = 2), nothing else is checked *)
@@ -181,7 +273,7 @@ Definition waste_page (ids : list string) (tok : wtoken) (size : Z) : outcome Z 
       else waste_respond ids start (waste_count size)
   end.
 
-Definition waste_chain (ids : list string) (size : Z) (fuel : nat) (tok : wtoken) : list (outcome Z) :=
-  chain_with (fun t => waste_page ids t size) WNum fuel tok.
-Definition waste_chain_v0 (ids : list string) (size : Z) (fuel : nat) (tok : wtoken) : list (outcome Z) :=
-  chain_with (fun t => waste_page_v0 ids t size) WNum fuel tok.
+Definition waste_chain (ids : list string) (sizes : list Z) (tok : wtoken) : list (outcome Z) :=
+  chain_req (waste_page ids) WNum sizes tok.
+Definition waste_chain_v0 (ids : list string) (sizes : list Z) (tok : wtoken) : list (outcome Z) :=
+  chain_req (waste_page_v0 ids) WNum sizes tok.
